@@ -174,6 +174,9 @@ def monitor(sc, gline):
         return ("driver-output-unparsable", "no result line for the scenario")
     toks = gline.split(" ")[1:]
     want, last = reference(sc)
+    if sc.get("stream_changed"):
+        return ("stream-batch-mutated-by-reader", "after the readers were done, OutputStream.Get(%s) no longer returns the batch that was added: a GetMessages "
+                                                  "request changed a batch shared by all requests of the node" % sc["stream_changed"].split(":")[-1])
     if ended_tail(sc, toks):
         exp = expected_stream(sc)
         n = sum(len(_received(t)) for t in toks[:-1])
@@ -551,56 +554,168 @@ def gen_gm_ended(rng, cls):
     return {"nsess": 3, "steps": steps, "class": "ended-" + cls}
 
 
+def step_client(st):
+    """client steps: ["o"] ["r",k] ["x"] ["f"] belong to client 1; ["o",c] ["r",k,c] ["x",c] ["f",c] to client c"""
+    if st[0] == "r":
+        return st[2] if len(st) > 2 else 1
+    if st[0] in ("o", "x", "f"):
+        return st[1] if len(st) > 1 else 1
+    return None
+
+
+def gen_gm_multi(rng):
+    """several sessions, each reading through its own request on the same node, traffic whose reply
+    batches have MIXED recipients (a later message for a session that is not addressed by an earlier
+    one: PRIVMSG to an away user, INVITE, KILL, WHOIS), varied read order (sender first / target
+    first / third party first / a reader that opens or resumes after the others have read).  Every
+    reader must get exactly its own filtered sequence whoever read first, and the stream itself must
+    be unchanged afterwards."""
+    steps = []
+    nick = {1: "alice", 2: "bob", 3: "carol"}
+
+    def m(s, line, ends=None):
+        steps.append(["m", s, line] + ([ends] if ends else []))
+    for s in (1, 2, 3):
+        m(s, "NICK " + nick[s]); m(s, "USER x 0 * :x"); m(s, "JOIN #c")
+    m(2, "JOIN #d")
+    oper = rng.random() < 0.4
+    if oper:
+        m(2, "OPER root secret")
+    if rng.random() < 0.7:
+        m(rng.choice([1, 3]), "AWAY :gone fishing")
+    away = True
+
+    def mixed():
+        k = rng.random()
+        if k < 0.3:
+            m(2, "PRIVMSG %s :ping" % rng.choice([nick[1], nick[3]]))        # [PRIVMSG->target, 301->sender] when away
+        elif k < 0.45:
+            m(rng.choice([1, 3]), "PRIVMSG bob :pong")
+        elif k < 0.6:
+            m(2, "INVITE %s #d" % rng.choice([nick[1], nick[3]]))            # [341->inviter, INVITE->invitee, NOTICE->channel]
+        elif k < 0.7:
+            m(rng.choice([1, 2, 3]), "WHOIS %s" % nick[rng.choice([1, 2, 3])])
+        elif k < 0.8:
+            s = rng.choice([2, 3]); nick[s] = nick[s].rstrip("0123456789") + str(rng.randint(1, 9)); m(s, "NICK " + nick[s])
+        elif k < 0.9:
+            m(rng.choice([1, 2, 3]), "PRIVMSG #c :hello")
+        else:
+            m(1, "TOPIC #c :t%d" % rng.randint(1, 9))
+    readers = [1, 2, 3] if rng.random() < 0.6 else rng.sample([1, 2, 3], 2)
+    pattern = rng.choice(["sequential", "concurrent", "concurrent", "resume"])
+    if pattern == "sequential":
+        # one reader reads the mixed batches first, the others open their streams afterwards
+        order = list(readers); rng.shuffle(order)
+        first = order[0]
+        steps.append(["o", first]); steps.append(["r", 0, first])
+        for _ in range(rng.randint(1, 4)):
+            mixed()
+        steps.append(["r", 0, first])
+        for c in order[1:]:
+            steps.append(["o", c]); steps.append(["r", 0, c])
+        mixed()
+        for c in order:
+            steps.append(["r", 0, c])
+    else:
+        for c in readers:
+            steps.append(["o", c])
+        resumer = rng.choice(readers) if pattern == "resume" else None
+        for c in readers:
+            if c == resumer:
+                steps.append(["r", rng.randint(1, 4), c]); steps.append(["x", c])     # cut inside its welcome burst
+            else:
+                steps.append(["r", 0, c])
+        for _ in range(rng.randint(1, 3)):
+            for _ in range(rng.randint(1, 3)):
+                mixed()
+            order = [c for c in readers if c != resumer]; rng.shuffle(order)
+            for c in order:
+                steps.append(["r", 0, c])
+        if resumer:
+            steps.append(["o", resumer]); steps.append(["r", 0, resumer])
+            mixed()
+            order = list(readers); rng.shuffle(order)
+            for c in order:
+                steps.append(["r", 0, c])
+    if oper and 3 in readers and rng.random() < 0.6:
+        # KILL: [QUIT->channel, KILL->victim, ERROR->victim]; the victim is caught up and idle
+        steps.append(["r", 0, 3])
+        m(2, "KILL %s :bye" % nick[3], 3)
+        others = [c for c in readers if c != 3]; rng.shuffle(others)
+        steps.append(["f", 3])
+        for c in others:
+            steps.append(["r", 0, c])
+    return {"nsess": 3, "steps": steps, "class": "multi-" + pattern}
+
+
 def gm_line(spec):
     toks = ["gm", str(spec["nsess"])]
     for st in spec["steps"]:
+        c = step_client(st)
+        at = "" if c in (None, 1) else "@%d" % c
         if st[0] in ("m", "D"):
             toks.append("%s:%d:%s" % (st[0], st[1], st[2].encode().hex()))
         elif st[0] == "r":
-            toks.append("r:%d" % st[1])
+            toks.append("r:%d%s" % (st[1], at))
         else:
-            toks.append(st[0])
+            toks.append(st[0] + at)
     return " ".join(toks)
 
 
-def gm_to_case(spec, gl):
-    """translate the handler-level run into a resume scenario over the stream the real ircserver
-    produced: (scenario for the Out/Resume model and the reference, result line in `res` form)"""
+def gm_to_cases(spec, gl):
+    """translate the handler-level run into one resume scenario PER READER over the stream the real
+    ircserver produced: [(scenario for the Out/Resume model and the reference, result line in `res`
+    form)], or (None, error text)"""
     f = gl.split(" ")
-    if f[0] != "gm" or not f[-1].startswith("S=") or len(f) != len(spec["steps"]) + 3:
+    if f[0] != "gm" or not f[-1].startswith("S=") or len(f) != len(spec["steps"]) + 5:
         return None, gl[:300]
     stream_by_id = {b[0]: b for b in parse_dump(f[-1][2:])}
-    stream, events, toks = [], [], []
+    lasts = dict(x.split(":") for x in f[-3][2:].split(",")) if f[-3] != "L=-" else {}
+    changed = f[-2][2:]
+    clients = sorted({step_client(st) for st in spec["steps"] if step_client(st) is not None})
+    res = []
+    for c in clients:
+        stream, events, toks = [], [], []
 
-    def add(i):
-        stream.append(stream_by_id[i]); events.append(["a", 0]); toks.append("a=ok")
-    end_event = None
-    for st, t in zip(spec["steps"], f[1:-2]):
-        val = t.split("=", 1)[1]
-        if st[0] in ("m", "D"):
-            if val != "-":
-                add(int(val))
-                ends = (st[0] == "D" and st[1] == 1) or (st[0] == "m" and (
-                    (st[1] == 1 and st[2].startswith("QUIT")) or st[2].startswith("KILL alice")))
-                if ends:
-                    end_event = len(events) - 1
-        elif st[0] == "o":
-            events.append(["c", 0]); toks.append("c=ok" if val == "ok" else "c=" + val)
-        elif st[0] == "x":
-            events.append(["x"]); toks.append("x=ok")
-        elif st[0] == "r" and st[1] > 0:
-            events.append(["r", st[1]]); toks.append("r=" + val)
-        elif st[0] == "r":
-            mm = re.match(r"(.*)@(\d+)(!\w+)?$", val)
-            add(int(mm.group(2)))
-            events.append(["r", 0]); toks.append("r=" + mm.group(1) + (mm.group(3) or ""))
-        elif st[0] == "f":
-            events.append(["r", 0]); toks.append("r=" + val)
-    sc = {"sess": 1, "ls0": [1, 0], "stream": stream, "events": events, "gm": spec,
-          "note": "handler level: real handleGetMessages over ircserver + outputstream"}
-    if end_event is not None:
-        sc["end_event"] = end_event
-    return sc, " ".join(["res"] + toks + [f[-2]])
+        def add(i):
+            stream.append(stream_by_id[i]); events.append(["a", 0]); toks.append("a=ok")
+        end_event = None
+        for st, t in zip(spec["steps"], f[1:-4]):
+            val = t.split("=", 1)[1]
+            mine = step_client(st) == c
+            if st[0] in ("m", "D"):
+                if val != "-":
+                    add(int(val))
+                    if len(st) > 3:
+                        ends = st[3] == c
+                    else:   # scenarios written before readers other than session 1 existed
+                        ends = c == 1 and ((st[0] == "D" and st[1] == 1) or (st[0] == "m" and (
+                            (st[1] == 1 and st[2].startswith("QUIT")) or st[2].startswith("KILL alice"))))
+                    if ends:
+                        end_event = len(events) - 1
+            elif st[0] == "r" and st[1] == 0:
+                mm = re.match(r"(.*)@(\d+)(!\w+)?$", val)
+                add(int(mm.group(2)))           # the marker batch is part of the stream for every reader
+                if mine:
+                    events.append(["r", 0]); toks.append("r=" + mm.group(1) + (mm.group(3) or ""))
+            elif not mine:
+                continue
+            elif st[0] == "o":
+                events.append(["c", 0]); toks.append("c=ok" if val == "ok" else "c=" + val)
+            elif st[0] == "x":
+                events.append(["x"]); toks.append("x=ok")
+            elif st[0] == "r":
+                events.append(["r", st[1]]); toks.append("r=" + val)
+            elif st[0] == "f":
+                events.append(["r", 0]); toks.append("r=" + val)
+        sc = {"sess": c, "ls0": [c, 0], "stream": stream, "events": events, "gm": spec, "gm_client": c,
+              "note": "handler level: real handleGetMessages over ircserver + outputstream, reader of session %d" % c}
+        if end_event is not None:
+            sc["end_event"] = end_event
+        if c == clients[0] and changed != "ok":
+            sc["stream_changed"] = changed
+        res.append((sc, " ".join(["res"] + toks + ["last=" + lasts.get(str(c), "0.0")])))
+    return res, None
 
 
 def run_gm(specs, tag="gm"):
@@ -615,10 +730,10 @@ def run_gm(specs, tag="gm"):
         return None, out
     res = []
     for spec, gl in zip(specs, open(outp).read().split("\n")[:-1]):
-        sc, g = gm_to_case(spec, gl)
-        if sc is None:
-            return None, "handler-level driver: unusable result line: " + g
-        res.append((sc, g))
+        scs, err = gm_to_cases(spec, gl)
+        if scs is None:
+            return None, "handler-level driver: unusable result line: " + err
+        res += scs
     return res, out
 
 
@@ -779,8 +894,12 @@ def run(ck, replay):
             return
         cases += rcases
     # handler-level scenarios: the scenario (stream) only exists after the real ircserver has run
-    gm_specs = [c["gm"] for c in cases if "gm" in c]
+    gm_specs = []
+    for c in cases:
+        if "gm" in c and c["gm"] not in gm_specs:
+            gm_specs.append(c["gm"])
     if not replay:
+        gm_specs += [gen_gm_multi(ck.rng) for _ in range(80 if ck.tier == "quick" else 1000)]
         gm_specs += [gen_gm(ck.rng) for _ in range(120 if ck.tier == "quick" else 1500)]
         gm_specs += [gen_gm_ended(ck.rng, "a" if k % 3 else "b") for k in range(24 if ck.tier == "quick" else 200)]
     cases = [c for c in cases if "gm" not in c]
@@ -868,12 +987,17 @@ def run(ck, replay):
                       "message from just before the replayed window to the end (reference = stream of A); every scenario ends with a node that applies everything and a client that reads until the handler is parked; "
                       "non-trivial = messages were received on at least two connections; distinct by case text")
     gm_ends = {}
+    gm_classes = {}
     for sc, g in gm_res:
+        cls = sc["gm"].get("class", "single-reader")
+        gm_classes[cls] = gm_classes.get(cls, 0) + 1
+        if cls != "single-reader":
+            continue
         e = [st for st in sc["gm"]["steps"] if st[0] in ("m", "D")][-1]
         kind = "none" if sc["gm"]["steps"][-1][0] != "f" else ("DeleteSession" if e[0] == "D" else e[2].split(" ")[0])
         gm_ends[kind] = gm_ends.get(kind, 0) + 1
     ck.cov["input_distribution"] = dict(stats, corpus_cases=ncorpus, restore=restore_info,
-                                        handler_level={"scenarios": len(gm_res), "session_ended_by": gm_ends})
+                                        handler_level={"reader_scenarios": len(gm_res), "by_class": gm_classes, "session_ended_by": gm_ends})
     ck.cov["samples"] = [{"case": lines[i][:1500], "impl": glines[i][:1500], "model": mlines[i][:1500]} for i in
                          ([0] if ncorpus else []) + [ncorpus, len(cases) - 1] if i < len(lines)][:3]
 
@@ -892,6 +1016,7 @@ def run(ck, replay):
         sl = case_line(small)
         if "gm" in small:
             rr, _ = run_gm([small["gm"]], "final")
+            rr = [x for x in (rr or []) if x[0].get("gm_client", 1) == small.get("gm_client", 1)]
             sg = [rr[0][1]] if rr else None
         else:
             sg, _ = run_go([sl], "final")
